@@ -114,6 +114,9 @@ pub use crate::builtins::{
     PlainYearMonth, TimeDuration, ZonedDateTime,
 };
 
+#[cfg(feature = "verif_hooks")]
+pub use crate::builtins::verif_hooks;
+
 /// A library specific trait for unwrapping assertions.
 pub(crate) trait TemporalUnwrap {
     type Output;
